@@ -18,13 +18,15 @@ import (
 
 func init() {
 	seqChecks["c13"] = &seqCheck{run: runC13, replay: replayC13,
-		rule: "every mutation history of <=3 (4 thorough) operations {Create, Update, Delete, two updates in one transaction, update+delete in one transaction} x ids {a,b,c} x values with key vectors {nil,k,ka,l} x {nil,k} (two indexes), each on a fresh badgerstore + QueryStore under the scheduler; after Flush 16 basic queries per history and the full set (2 indexes x 7 prefixes x 3 filters x 4 offsets x 4 limits x 2 directions = 1344) on every distinct content of depth<=2 are compared with a sorted/filtered/windowed scan of the model map; OnQueryChange count, the query result inside the callback and Events() are checked for every mutation (C14); distinct = distinct (history, result vector)"}
+		rule: "every mutation history of <=3 operations (thorough: 4, the 4th over the reduced value set {nil, ka, (k,k), empty} without two-mutation transactions) {Create, Update, Delete, two updates in one transaction, update+delete in one transaction} x ids {a,b,c} x values with key vectors {nil,k,ka,l} x {nil,k} (two indexes), each on a fresh badgerstore + QueryStore under the scheduler; after Flush 16 basic queries per history and the full set (2 indexes x 7 prefixes x 3 filters x 4 offsets x 4 limits x 2 directions = 1344) on every distinct content of depth<=2 are compared with a sorted/filtered/windowed scan of the model map; OnQueryChange count, the query result inside the callback and Events() are checked for every mutation (C14); distinct = distinct (history, result vector)"}
 }
 
 type c13Val struct{ k1, k2 string } // "" = nil key
 
 // "@" stands for a present but empty key (an empty, non-nil index key)
 var c13Vals = []c13Val{{"", ""}, {"k", ""}, {"ka", ""}, {"l", ""}, {"", "k"}, {"k", "k"}, {"ka", "k"}, {"l", "k"}, {"@", ""}, {"@", "k"}}
+
+var c13AllVals = []int{0, 1, 2, 3, 4, 5, 6, 7, 8, 9}
 
 func (v c13Val) value() map[string]interface{} {
 	m := map[string]interface{}{"x": "y"}
@@ -413,11 +415,19 @@ func runC13(c *seqCtx) {
 			if id == "c" && !usedID(ops, "b") {
 				continue
 			}
+			// the 4th operation of the thorough tier ranges over a reduced value set {nil, ka, (k,k), ""} and
+			// has no two-mutation transactions: depth 4 over the full alphabet is 25 times larger than depth 3
+			vals := c13AllVals
+			multi := []int{1, 2, 5, 8}
+			if len(ops) == 3 {
+				vals = []int{0, 2, 5, 8}
+				multi = nil
+			}
 			if present[id] {
-				for vi := range c13Vals {
+				for _, vi := range vals {
 					rec(append(append([]c13Op{}, ops...), c13Op{"update", id, vi}), present)
 				}
-				for _, vi := range []int{1, 2, 5, 8} {
+				for _, vi := range multi {
 					rec(append(append([]c13Op{}, ops...), c13Op{"upup", id, vi}), present)
 					np := copyPresent(present)
 					delete(np, id)
@@ -427,7 +437,7 @@ func runC13(c *seqCtx) {
 				delete(np, id)
 				rec(append(append([]c13Op{}, ops...), c13Op{"delete", id, 0}), np)
 			} else {
-				for vi := range c13Vals {
+				for _, vi := range vals {
 					np := copyPresent(present)
 					np[id] = true
 					rec(append(append([]c13Op{}, ops...), c13Op{"create", id, vi}), np)
